@@ -228,7 +228,7 @@ def case(spec):
 
 def main(tier, seed, scale=1.0):
     BIN['san'] = build.ensure('san')
-    n = int((250 if tier == 'quick' else 25000) * scale)
+    n = int((500 if tier == 'quick' else 25000) * scale)
     specs = [(seed, i, tier) for i in range(n)]
     rule = ('one case = one generated non-overlapping disc (0..31/62 files, zero-length files, gaps anywhere, all four '
             'Watford half combinations, Opus volumes); per volume free and space vs the reference rules, per surface '
